@@ -237,6 +237,20 @@ int main() {
         if (!vars.count(k)) { std::cout << "EXC unknown_handle\n"; continue; }
         std::cout << "v " << num(vars[k]->value()) << "\n";
       } else if (w[0] == "state") std::cout << st->alloc_line(0, false) << "\n";
+      else if (w[0] == "stack2") {
+        // C11: constructing a second (activating) Stack while one is active in this thread must throw
+        // stack_already_active and leave the first one active
+        adept::Stack* s2 = 0;
+        try {
+          s2 = new adept::Stack();
+          std::cout << "ok second-stack-constructed active-is-first=" << (adept::active_stack() == st ? 1 : 0) << "\n";
+        } catch (const stack_already_active&) {
+          std::cout << "EXC stack_already_active" << (adept::active_stack() == st ? "" : " first-stack-no-longer-active") << "\n";
+        }
+        delete s2;
+        if (adept::active_stack() != st) st->activate();   // keep the session going after a reported failure
+      } else if (w[0] == "deact") { st->deactivate(); std::cout << "ok " << (adept::active_stack() == 0 ? 0 : 1) << "\n"; }
+      else if (w[0] == "act") { st->activate(); std::cout << "ok " << (adept::active_stack() == st ? 1 : 0) << "\n"; }
       else std::cout << "bad-op\n";
     } catch (const std::exception& e) {
       std::cout << "EXC " << excname(e) << "\n";
